@@ -140,7 +140,10 @@ func InitEventSender(cfg *EventConfig) (S3EventSender, error) {
 }
 
 func createEventSchema(ctx *fiber.Ctx, meta EventMeta, configId ConfigurationId) EventSchema {
-	path := strings.Split(ctx.Path(), "/")
+	// the record is marshalled and sent after the request is done: what
+	// it takes from the request has to be copied, Fiber reuses the buffers
+	// these strings point into for the next request
+	path := strings.Split(strings.Clone(ctx.Path()), "/")
 	bucket, object := path[1], strings.Join(path[2:], "/")
 	acc := ctx.Locals("account").(auth.Account)
 
@@ -156,11 +159,11 @@ func createEventSchema(ctx *fiber.Ctx, meta EventMeta, configId ConfigurationId)
 					PrincipalId: acc.Access,
 				},
 				RequestParameters: EventRequestParams{
-					SourceIPAddress: ctx.IP(),
+					SourceIPAddress: strings.Clone(ctx.IP()),
 				},
 				ResponseElements: EventResponseElements{
-					RequestId: ctx.Get("X-Amz-Request-Id"),
-					HostId:    ctx.Get("X-Amz-Id-2"),
+					RequestId: strings.Clone(ctx.Get("X-Amz-Request-Id")),
+					HostId:    strings.Clone(ctx.Get("X-Amz-Id-2")),
 				},
 				S3: EventS3Data{
 					S3SchemaVersion: "1.0",
